@@ -25,7 +25,8 @@ RULE = ("all label assignments over the per-dtype limit alphabet {1, max, "
         "appears in both channel positions) x factor triples {1,2}^3 "
         "(average) / {1,2,3}^3 (majority, stride) x outside value in {None, "
         "0, 255, 7.5}; ramp-filled shapes {1..5}^3; unsupported factor "
-        "triples must raise NotImplementedError. One evaluation = one "
+        "triples must raise NotImplementedError; one downscaler instance fed "
+        "chunks of 3 different data types in every order. One evaluation = one "
         "downscale call; non-trivial = some factor > 1 and the array is not "
         "constant.")
 ASSUMPTIONS = [
@@ -239,6 +240,38 @@ def _factor_sets(method):
     return list(itertools.product((1, 2, 3), repeat=3))
 
 
+def _run_reuse(col):
+    """one downscaler INSTANCE fed chunks of different data types in every
+    order (the conversion scripts create one instance per run; a library
+    user may keep it): results must not depend on earlier calls"""
+    seqs = list(itertools.permutations(DTYPES, 3))
+    for method, outside in (("average", None), ("average", 0.0),
+                            ("majority", None), ("stride", None)):
+        for seq in seqs:
+            ds = _downscaler(method, outside)
+            for k, dtype in enumerate(seq):
+                hi = ex.INT_RANGE[dtype][1] if ex.is_int_type(dtype) else 3
+                vals = [Fraction(v) for v in (1, hi, hi - 1, 0, 2, hi)]
+                before = col.r["violation_count"]
+                _evaluate(col, method, dtype, (1, 2, 3), (2, 2, 1), outside,
+                          [vals, vals[::-1]], ds)
+                if col.r["violation_count"] != before:
+                    # re-label: the same call on a fresh instance is correct
+                    c2 = Collector()
+                    _evaluate(c2, method, dtype, (1, 2, 3), (2, 2, 1),
+                              outside, [vals, vals[::-1]])
+                    if c2.r["violation_count"] == 0:
+                        col.violation(
+                            "C07/%s/result-depends-on-earlier-calls-of-the-"
+                            "same-instance" % method,
+                            {"kind": "reuse", "method": method,
+                             "outside": outside, "sequence": list(seq),
+                             "position": k}, "same as a fresh instance",
+                            "differs after %r" % (list(seq[:k]),))
+    col.sample({"kind": "reuse", "method": "average",
+                "sequence": ["uint8", "uint16", "float32"]})
+
+
 def units(tier):
     u = []
     for dtype in DTYPES:
@@ -256,6 +289,7 @@ def units(tier):
     for dtype in DTYPES:
         u.append({"kind": "ramp", "dtype": dtype})
     u.append({"kind": "reject"})
+    u.append({"kind": "reuse"})
     return u
 
 
@@ -321,6 +355,8 @@ def run_unit(u):
         _run_all(col, u, u.get("tier", _TIER[0]))
     elif u["kind"] == "ramp":
         _run_ramp(col, u["dtype"])
+    elif u["kind"] == "reuse":
+        _run_reuse(col)
     else:
         for method, fs in BAD_FACTORS.items():
             for f in fs:
@@ -345,6 +381,12 @@ def replay(case):
     if case.get("kind") == "reject":
         _eval_reject(col, case["method"], case["factors"])
         return col.records()
+    if case.get("kind") == "reuse":
+        _run_reuse(col)
+        return [r for r in col.records()
+                if r["case"].get("kind") == "reuse"
+                and r["case"].get("sequence") == case["sequence"]
+                and r["case"].get("method") == case["method"]]
     chans = [[Fraction(v) for v in ch] for ch in case["values"]]
     _evaluate(col, case["method"], case["dtype"], tuple(case["shape"]),
               tuple(case["factors"]), case["outside"], chans)
